@@ -38,7 +38,7 @@ Definition d13_prefix_run : outcome (rcrew * list (mid * entry rcfg)) :=
   flush (set_machine_prefix (fst cs) "a" None (Some (mk_ms "flip" [("k", JNum 4)])), snd cs)).
 
 Lemma d13_prefix_refuted :
-  exists c store, d13_prefix_run = Done (c, store) /\ store_view rcfg store "a" <> live_view rcfg c "a".
+  exists c store, d13_prefix_run = Done (c, store) /\ store_view rcfg rresolves store "a" <> live_view rcfg c "a".
 Proof.
   destruct d13_prefix_run as [[c store]| |] eqn:H; try (vm_compute in H; discriminate).
   exists c, store. split; [reflexivity|]. vm_compute in H. injection H as <- <-. vm_compute. discriminate.
@@ -47,7 +47,7 @@ Qed.
 (** D42: a machine created without specification and state, reported the old way *)
 Lemma d42_prefix_refuted :
   exists c store, flush (set_machine_prefix (init_crew rcfg) "z" None None, []) = Done (c, store)
-                  /\ store_view rcfg store "z" <> live_view rcfg c "z".
+                  /\ store_view rcfg rresolves store "z" <> live_view rcfg c "z".
 Proof.
   destruct (flush (set_machine_prefix (init_crew rcfg) "z" None None, [])) as [[c store]| |] eqn:H;
     try (vm_compute in H; discriminate).
@@ -65,12 +65,12 @@ Definition restart_two_schedules_full : Prop :=
   forall ord1 ord2 : forall A : Type, list (mid * A) -> list (mid * A),
   (forall A l, Permutation (ord1 A l) l) -> (forall A l, Permutation (ord2 A l) l) ->
   forall fuel h c store,
-    run_history rcfg rreact rdecode rcfg_eqb ord1 fuel (init_crew rcfg, []) h = Done (c, store) ->
+    run_history rcfg rreact rdecode rresolves rcfg_eqb ord1 fuel (init_crew rcfg, []) h = Done (c, store) ->
     ends_with_msg rcfg h -> wedged rcfg c = false ->
     forall h2,
       orel (fun x y => machines rcfg (fst x) = machines rcfg (fst y))
-           (run_outputs rcfg rreact rdecode rcfg_eqb ord1 fuel c h2)
-           (run_outputs rcfg rreact rdecode rcfg_eqb ord2 fuel (boot rcfg ord2 store) h2).
+           (run_outputs rcfg rreact rdecode rresolves rcfg_eqb ord1 fuel c h2)
+           (run_outputs rcfg rreact rdecode rresolves rcfg_eqb ord2 fuel (boot rcfg rresolves ord2 store) h2).
 
 Definition two_sched_h : list (hop rcfg) :=
   [OpSet "a" (Some (mk_rcfg "L0" RFwd)) None; OpSet "b" (Some (mk_rcfg "L1" RFwd)) None;
@@ -83,7 +83,7 @@ Definition two_sched_h2 : list (hop rcfg) :=
 Lemma restart_two_schedules_refuted : ~ restart_two_schedules_full.
 Proof.
   intros F.
-  destruct (run_history rcfg rreact rdecode rcfg_eqb ord_id 20 (init_crew rcfg, []) two_sched_h)
+  destruct (run_history rcfg rreact rdecode rresolves rcfg_eqb ord_id 20 (init_crew rcfg, []) two_sched_h)
     as [[c store]| |] eqn:H; try (vm_compute in H; discriminate).
   assert (E : ends_with_msg rcfg two_sched_h).
   { exists (removelast two_sched_h), (JObj [("tag", JStr "flush"); ("to", JStr "nobody")]). reflexivity. }
